@@ -424,7 +424,8 @@ def trace_call(f: Callable[..., ReturnT],
 
     # construct the function
     function = FunctionDefinition(
-        frozenset(pl_arg.name for pl_arg in pl_args) | frozenset(pl_kwargs),
+        frozenset(pl_arg.name for pl_arg in pl_args)
+        | frozenset(pl_kwarg.name for pl_kwarg in pl_kwargs.values()),
         return_type,
         constantdict(returns),
         tags=_get_default_tags() | (frozenset([FunctionIdentifier(identifier)])
